@@ -49,6 +49,16 @@ type c01Model struct {
 	NodeMnt  bool      // n1
 	SvcMnt   bool      // web-1
 	KV       int       // index into c01KVs
+	Alt      bool      // web-1 re-registered (same node and id) with another prefix tag and port
+}
+
+// tag and port an instance currently advertises
+func (m c01Model) adv(i int) (string, int) {
+	in := c01Insts[i]
+	if i == 0 && m.Alt {
+		return "urlprefix-/web-v2", in.port + 100
+	}
+	return in.tag, in.port
 }
 
 var c01KVs = []string{"", "route del web", "route add man /man http://10.0.0.9:1/", "route weight web /web weight 0.3", "route foo"}
@@ -77,12 +87,13 @@ func (m c01Model) checks() []c01Check {
 		if !m.Reg[i] {
 			continue
 		}
-		out = append(out, c01Check{Node: in.node, CheckID: "service:" + in.id, Name: "check", Status: m.Check[i], ServiceID: in.id, ServiceName: in.svc, ServiceTags: []string{in.tag, "v1"}})
+		tag, _ := m.adv(i)
+		out = append(out, c01Check{Node: in.node, CheckID: "service:" + in.id, Name: "check", Status: m.Check[i], ServiceID: in.id, ServiceName: in.svc, ServiceTags: []string{tag, "v1"}})
 		if i == 0 && m.Check2 != "" {
-			out = append(out, c01Check{Node: in.node, CheckID: "service:" + in.id + ":2", Name: "check2", Status: m.Check2, ServiceID: in.id, ServiceName: in.svc, ServiceTags: []string{in.tag, "v1"}})
+			out = append(out, c01Check{Node: in.node, CheckID: "service:" + in.id + ":2", Name: "check2", Status: m.Check2, ServiceID: in.id, ServiceName: in.svc, ServiceTags: []string{tag, "v1"}})
 		}
 		if i == 0 && m.SvcMnt {
-			out = append(out, c01Check{Node: in.node, CheckID: "_service_maintenance:" + in.id, Name: "Service Maintenance Mode", Status: "critical", ServiceID: in.id, ServiceName: in.svc, ServiceTags: []string{in.tag, "v1"}})
+			out = append(out, c01Check{Node: in.node, CheckID: "_service_maintenance:" + in.id, Name: "Service Maintenance Mode", Status: "critical", ServiceID: in.id, ServiceName: in.svc, ServiceTags: []string{tag, "v1"}})
 		}
 	}
 	return out
@@ -177,7 +188,8 @@ func (c *c01Consul) serve(w http.ResponseWriter, r *http.Request) {
 		var out []map[string]interface{}
 		for i, in := range c01Insts {
 			if in.svc == name && c.m.Reg[i] {
-				out = append(out, map[string]interface{}{"Node": in.node, "Address": in.addr, "ServiceID": in.id, "ServiceName": in.svc, "ServiceAddress": "", "ServicePort": in.port, "ServiceTags": []string{in.tag, "v1"}})
+				tag, port := c.m.adv(i)
+				out = append(out, map[string]interface{}{"Node": in.node, "Address": in.addr, "ServiceID": in.id, "ServiceName": in.svc, "ServiceAddress": "", "ServicePort": port, "ServiceTags": []string{tag, "v1"}})
 			}
 		}
 		c.meta(w)
@@ -273,6 +285,7 @@ func c01Events() []c01Event {
 		c01Event{"toggle-agent-down:n2", func(m c01Model) c01Model { m.SerfDown[1] = !m.SerfDown[1]; return m }},
 		c01Event{"toggle-node-maintenance:n1", func(m c01Model) c01Model { m.NodeMnt = !m.NodeMnt; return m }},
 		c01Event{"toggle-service-maintenance:web-1", func(m c01Model) c01Model { m.SvcMnt = !m.SvcMnt; return m }},
+		c01Event{"re-register-with-other-prefix-and-port:web-1", func(m c01Model) c01Model { m.Alt = !m.Alt; return m }},
 	)
 	for k := range c01KVs {
 		k := k
@@ -291,8 +304,9 @@ func c01Expected(m c01Model, strict bool, accepted []string) (string, bool) {
 	webUp := false
 	for i, in := range c01Insts {
 		if m.healthy(i, strict, accepted) {
-			src := strings.TrimPrefix(in.tag, "urlprefix-")
-			lines = append(lines, fmt.Sprintf("route add %s %s http://%s:%d/ tags \"v1\"", in.svc, src, in.addr, in.port))
+			tag, port := m.adv(i)
+			src := strings.TrimPrefix(tag, "urlprefix-")
+			lines = append(lines, fmt.Sprintf("route add %s %s http://%s:%d/ tags \"v1\"", in.svc, src, in.addr, port))
 			if in.svc == "web" {
 				webUp = true
 			}
@@ -333,7 +347,7 @@ func TestVerifC01Pipeline(t *testing.T) {
 		accepted []string
 	}{{"one/passing", false, []string{"passing"}}, {"all/passing", true, []string{"passing"}}, {"one/passing+warning", false, []string{"passing", "warning"}}, {"all/passing+warning", true, []string{"passing", "warning"}}}
 	L := ev.Begin("C01", "c01-pipeline", "model_checking",
-		"explicit-state BFS over registry histories through the real pipeline consul.NewBackend -> ServiceMonitor.Watch / watchKV -> main.watchBackend -> route.SetTable against an in-process fake Consul HTTP API (agent/self, health/state/any and kv with blocking queries on the index, catalog/service): 3 instances of 2 services on 2 nodes; events: (de)register, check flips to passing/warning/critical, a second check for strict mode, agent down/up per node, node and service maintenance, KV override in {none, route del, route add, route weight, syntax error}; per checksRequired mode and accepted-status list. After every event the harness waits for causal quiescence (both watchers parked on blocking queries at the current index, then one state-preserving index bump). invariant: active table == instances healthy under the stated rule + KV commands on top; with an invalid KV text the last good table stays. non-trivial = transition that changes the set of healthy instances or the KV text")
+		"explicit-state BFS over registry histories through the real pipeline consul.NewBackend -> ServiceMonitor.Watch / watchKV -> main.watchBackend -> route.SetTable against an in-process fake Consul HTTP API (agent/self, health/state/any and kv with blocking queries on the index, catalog/service): 3 instances of 2 services on 2 nodes; events: (de)register, check flips to passing/warning/critical, a second check for strict mode, agent down/up per node, node and service maintenance, re-registration of an instance with another prefix and port, KV override in {none, route del, route add, route weight, syntax error}; per checksRequired mode and accepted-status list. After every event the harness waits for causal quiescence (both watchers parked on blocking queries at the current index, then one state-preserving index bump). invariant: active table == instances healthy under the stated rule + KV commands on top; with an invalid KV text the last good table stays. non-trivial = transition that changes the set of healthy instances or the KV text")
 	maxDepth := 3
 	if ev.Thorough() {
 		maxDepth = 4
@@ -401,7 +415,7 @@ func TestVerifC01Pipeline(t *testing.T) {
 							changed = true
 						}
 					}
-					if changed || nm.KV != nd.m.KV {
+					if changed || nm.KV != nd.m.KV || nm.Alt != nd.m.Alt {
 						L.NontrivialKey(v.name + nm.key() + e.name)
 					}
 					L.Outcome(got)
@@ -415,7 +429,7 @@ func TestVerifC01Pipeline(t *testing.T) {
 						} else if strings.Contains(nd.lastG, "10.0.0.") {
 							// is an instance still routed that the rule says is unhealthy?
 							for i, in := range c01Insts {
-								if !nm.healthy(i, v.strict, v.accepted) && strings.Contains(got, fmt.Sprintf("%s:%d", in.addr, in.port)) {
+								if _, port := nm.adv(i); !nm.healthy(i, v.strict, v.accepted) && strings.Contains(got, fmt.Sprintf("%s:%d", in.addr, port)) {
 									kind = "unhealthy-instance-still-routed"
 								}
 							}
